@@ -5,7 +5,7 @@ from param.parameterized import batch_call_watchers
 from sx.api import assume, check, cover, untraced, pick, pickbool
 
 PROPERTY = 'C06'
-LABELS = ['C06.once', 'C06.on_init_once', 'C06.override_replaces', 'C06.method_dep', 'C06.function_form']
+LABELS = ['C06.init_assignment_seen', 'C06.once', 'C06.on_init_once', 'C06.override_replaces', 'C06.method_dep', 'C06.function_form']
 EXPLANATION = ("Harness c06.prog: classes are built inside the path from symbolic choices (dependency set of the base method from "
                "{a | b | a,b | b:bounds | a,b:bounds}, on_init, override pattern: none / decorated override with another dependency "
                "set / undecorated override / grandchild inheriting a decorated override / mixin in front of the base), plus a method "
@@ -32,10 +32,17 @@ def prog(ds1: int, init1: bool, ov: int, ds2: int, init2: bool, k: int,
         class A(param.Parameterized):
             a = param.Integer(default=0)
             b = param.Integer(default=0, bounds=(0, 10))
+            c = param.Integer(default=0)
 
             @param.depends(*DEPSETS[ds1], watch=True, on_init=init1)
             def m(self):
                 log.append('A.m')
+                if self.c == 0 and init1:
+                    self.c = 1          # an on_init method that assigns: later-declared dependents must see it
+
+            @param.depends('c', watch=True)
+            def wc(self):
+                log.append('wc')
 
             @param.depends('m', watch=True)
             def via(self):
@@ -68,6 +75,10 @@ def prog(ds1: int, init1: bool, ov: int, ds2: int, init2: bool, k: int,
     p = K()
     info0 = {'override': OV[ov], 'deps': list(eff), 'on_init': einit}
     check('C06.on_init_once', log.count(tag) == (1 if (auto and einit) else 0), dict(info0, log=list(log)))
+    if ov in (0, 4) and init1:
+        check('C06.init_assignment_seen', log.count('wc') == 1 and p.c == 1, dict(info0, log=list(log)))
+    else:
+        check('C06.init_assignment_seen', True)
     if ov in (1, 2, 3):
         check('C06.override_replaces', log.count('A.m') == 0, dict(info0, log=list(log)))
     flog = []
